@@ -42,3 +42,27 @@ PROPS = {
         not_covered='index/slice_seq/set_index and the take/drop/... builtins that call these kernels; stream indexing by iteration',
     ),
 }
+
+
+TECHNIQUE = 'contract-based deductive verification (Verus/Z3) of mechanically extracted real functions'
+
+TEXT = {
+    'C06': ('Verus proves, for every NInt/NNum operand pair in either representation (machine word or big integer), that the '
+            '90 functions of nint.rs, the integer arms of the numeric tower in nnum.rs and the arithmetic builtin closures of '
+            'lib.rs return the mathematically exact result stated on the abstract value (view) only, so the result cannot '
+            'depend on the representation; exact values of BigInt operations are assumed from num-bigint.'),
+    'C07': ('Verus proves that every binary operator of the numeric tower returns a value at the higher of the operand levels '
+            'equal to the operation at that level on the converted operands (exact on int/rational, uninterpreted on '
+            'float/complex), that / yields the exact fraction and falls back to float on a zero divisor, that // floors and '
+            '%% is the floor remainder on rationals, and that the rounding family agrees with exact arithmetic.'),
+    'C08': ('Verus proves that == and <=> on real numbers of any two levels are decided by the exact extended-real value '
+            '(NaN unordered and unequal, complex lexicographic), and that min/max are driven by total orders extending it.'),
+    'C09': ('Verus proves the Eq/Hash agreement that HashMap needs for numeric keys: the words a number hashes to are a '
+            'function of its exact value, and a lemma shows key-equal numbers (== or both NaN) write identical words.'),
+    'C10': ('Verus proves, for every isize index and every slice length, that the index/slice kernels of core.rs compute '
+            'Python\'s index/clamp/slice functions and cannot overflow or panic.'),
+    'C12': ('Verus proves the type-predicate kernel: is_type(type_of(v), v) and is_type(anything, v) hold for every value, '
+            'number accepts every numeric level, and builtin types classify by constructor.'),
+}
+NOTE = ('trusted: Verus/Z3; the prelude\'s assumed contracts on num-bigint/num-rational/f64/std (listed in evidence '
+        'coverage.trusted_base); functions not named in vc/units are not verified')
